@@ -43,6 +43,7 @@ func (c *conn) sendLoop(ctx async.Context) status.Status {
 			}
 			continue
 		}
+		verifYield(2)
 
 		// Wait for more messages
 		select {
@@ -91,6 +92,7 @@ func (c *conn) sendHandle(msg pmpx.Message) status.Status {
 	case pmpx.Code_ChannelClose:
 		// Remove and free channel
 		id := msg.ChannelClose().Id()
+		verifYield(5)
 
 		ch, ok := c.channels.Delete(id)
 		if ok {
